@@ -229,6 +229,21 @@ func genModuleSet(r *prng.R, o genModOpts) *ModSet {
 			}
 			if has && (r.Chance(0.6) || (dirHeavy && d == "pkg")) {
 				rec := r.Bool()
+				// a directory import that names no module at all is accepted by the frontend but makes the code
+				// generator fail ("importStmt.Module == nil", a C02 matter): well-formed sets never contain one
+				covered := 0
+				for _, m := range ms.Mods[1:] {
+					if dirCovers(d, rec, m.Path) {
+						covered++
+					}
+				}
+				if covered == 0 {
+					if o.Faulty {
+						kinds["dir_empty"] = true
+					} else {
+						rec = true
+					}
+				}
 				// a module must not be imported twice by the same importer: drop the explicit imports the directory import covers
 				if !o.Faulty && !o.Clashes {
 					var keep []gmImport
